@@ -183,7 +183,17 @@ pub fn scenario(r: &mut Report, p: &Params) {
         for _ in 0..k {
             let oi = rng.usize(nodes.len());
             let origin = &nodes[oi];
-            let target: [u8; 20] = rng.array();
+            let mut target: [u8; 20] = rng.array();
+            // every other lookup asks for the id of a joined server itself (a server is discoverable by its id)
+            if rng.bool() && nodes.len() >= 2 {
+                let ti = (oi + 1 + rng.usize(nodes.len() - 1)) % nodes.len();
+                if let Some(info) = w.block_on(nodes[ti].adht.info(), 5 * SEC) {
+                    if info.server_mode() {
+                        target = *info.id().as_bytes();
+                        r.count("every_server_lookups_for_the_id_of_a_server");
+                    }
+                }
+            }
             w.set_trace(TraceLevel::Full);
             w.clear_trace();
             let a = origin.adht.clone();
